@@ -10,6 +10,7 @@ import (
 	"net/url"
 	"os"
 	"reflect"
+	"runtime"
 	"strings"
 	"sync"
 	"time"
@@ -87,6 +88,9 @@ func (p *parker) handler(tag []any) rux.HandlerFunc {
 			p.params[id] = c.Param("id")
 		}
 		p.mu.Unlock()
+		if tag[0] == "main" && len(tag) > 1 && tag[1] == "p" {
+			panic("boom from " + id)
+		}
 		if tag[0] == "main" {
 			c.Text(200, "main:"+id+":"+c.Param("id"))
 		}
@@ -109,8 +113,9 @@ func buildShape(p *parker, glen, gcap, mwlen, mwcap int, opts ...func(*rux.Route
 		r.Use(gh...)
 	}
 	ok := cap(r.Handlers()) == gcap || glen == 0
-	for _, k := range []string{"a", "b"} {
-		path := "/a"
+	r.OnPanic = p.handler([]any{"hook"})
+	for _, k := range []string{"a", "b", "p"} {
+		path := "/" + k
 		if k == "b" {
 			path = "/b/{id}"
 		}
@@ -138,6 +143,8 @@ func servePath(kind, id string) string {
 		return "/a"
 	case "b":
 		return "/b/" + id
+	case "p":
+		return "/p"
 	}
 	return "/missing"
 }
@@ -153,7 +160,11 @@ func soloLog(kind string, glen, mwlen int) [][]any {
 	for i := 1; i <= mwlen; i++ {
 		out = append(out, []any{"mw", kind, i})
 	}
-	return append(out, []any{"main", kind})
+	out = append(out, []any{"main", kind})
+	if kind == "p" {
+		out = append(out, []any{"hook"})
+	}
+	return out
 }
 
 func dropNF(l [][]any) [][]any {
@@ -178,6 +189,9 @@ func serveReplay(s *Summary, raw json.RawMessage) {
 }
 
 func serveRun(s *Summary, c *serveCase, variant string) {
+	// one P: a context put back by one goroutine is what the next Get (on any goroutine) receives, so that sharing a
+	// context too early becomes observable; only one request runs at a time anyway
+	defer runtime.GOMAXPROCS(runtime.GOMAXPROCS(1))
 	p := &parker{gates: map[string]chan struct{}{}, parked: make(chan string, 16), logs: map[string][][]any{},
 		ctxOf: map[string]*rux.Context{}, owner: map[*rux.Context]string{}, params: map[string]string{}}
 	opts := []func(*rux.Router){}
@@ -319,6 +333,7 @@ drain:
 				s.mismatch(desc("interference", fmt.Sprintf("request %s for a missing path answered %d", id, w.Code)), c)
 				return
 			}
+		case "p":
 		case "b":
 			if w.Body.String() != "main:"+id+":"+id || p.params[id] != id {
 				s.mismatch(desc("interference", fmt.Sprintf("request %s for /b/%s got body %q, param id=%q", id, id, w.Body.String(), p.params[id])), c)
